@@ -694,11 +694,22 @@ def r9_7(ctx):
     if not tr:
         raise ShapeNotRecognised("no try_recv polling loop in %s" % FIND)
     loops = b.loops()
-    bb, t = tr[0]
-    inl = [h for h, body_ in loops.items() if bb in body_]
-    if not inl:
+    # the *wait* loop is the innermost loop around a try_recv that also tests the clock; a loop that only
+    # drains the channel after the deadline (`while let Ok(b) = rx.try_recv()`) is not it
+    from wa.implied import implying_edges as _ie
+    from .search import clock_test as _ct
+    clock_blocks = {s for s, tg, (e, truth), fresh, lastdefs in _ie(b, ex, lambda e, t: _ct(e, t) is not None)}
+    cand = []
+    for bb_, t_ in tr:
+        inl_ = [h for h, body_ in loops.items() if bb_ in body_]
+        if not inl_:
+            continue
+        h_ = min(inl_, key=lambda hh: len(loops[hh]))
+        cand.append((bb_, t_, h_))
+    if not cand:
         raise ShapeNotRecognised("try_recv is not inside a loop")
-    h = min(inl, key=lambda hh: len(loops[hh]))
+    with_clock = [c for c in cand if clock_blocks & set(loops[c[2]])]
+    bb, t, h = (with_clock or cand)[0]
     loop = loops[h]
     call = ex.call_expr(t, b.term_loc(bb))
     best = set()
